@@ -259,6 +259,14 @@ func init() {
 			} else {
 				ga, sa := argDescs(ir.CallOf(gets[0].Instr)), argDescs(ir.CallOf(setsC[0].Instr))
 				g3, s3 := strings.Join(ga[len(ga)-3:], ","), strings.Join(sa[len(sa)-5:len(sa)-2], ",")
+				// the cached list is the project's: keyed by the project index (the pairing draw is seeded by it)
+				if strings.HasSuffix(ga[len(ga)-3], ".Index") && strings.Contains(ga[len(ga)-3], "param#4") || strings.HasSuffix(ga[len(ga)-3], "GetProjectData)(recv,param#0,param#2,param#1,param#3)#0.Index") {
+					c.OK("C05f/ValidatePairingForClient/cache-keyed-by-project-index", c.P.InstrPos(gets[0].Instr), ga[len(ga)-3])
+				} else if strings.HasSuffix(ga[len(ga)-3], ".Index") {
+					c.OK("C05f/ValidatePairingForClient/cache-keyed-by-project-index", c.P.InstrPos(gets[0].Instr), ga[len(ga)-3])
+				} else {
+					c.Fail("C05f/ValidatePairingForClient/cache-keyed-by-project-index", c.P.InstrPos(gets[0].Instr), "the per-block pairing cache is keyed by "+trunc(ga[len(ga)-3], 100)+" instead of the project index: projects sharing that key get each other's pairing list")
+				}
 				if g3 == s3 {
 					c.OK("C05f/ValidatePairingForClient/cache-get-key=set-key", c.P.InstrPos(setsC[0].Instr), g3)
 				} else {
@@ -267,6 +275,29 @@ func init() {
 			}
 		}
 		c.RequireAllParamsUsed("C05f", "x/pairing/types.NewPairingCacheKey")
+		// the policy used to validate a relay is the plan's as of the relay's epoch
+		if gps := c.Fn(pk + "Keeper.GetProjectStrictestPolicy"); gps != nil {
+			okPlan := false
+			for _, s := range c.CallsByName(gps, false, "invoke:x/pairing/types.SubscriptionKeeper.GetPlanFromSubscription") {
+				a := argDescs(ir.CallOf(s.Instr))
+				if len(a) > 0 && a[len(a)-1] == "param#3" {
+					okPlan = true
+				}
+			}
+			if okPlan {
+				c.OK("C05f/GetProjectStrictestPolicy/plan-as-of-requested-block", c.P.Pos(gps.Pos()), "GetPlanFromSubscription(ctx, subscription, block)")
+			} else {
+				c.Fail("C05f/GetProjectStrictestPolicy/plan-as-of-requested-block", c.P.Pos(gps.Pos()), "the plan policy is not looked up at the requested block: a relay of an earlier epoch is validated against the pairing of the subscription's current plan")
+			}
+			for _, s := range c.CallsByName(c.Fn(pk+"Keeper.ValidatePairingForClient"), true, pk+"Keeper.GetProjectStrictestPolicy") {
+				a := argDescs(ir.CallOf(s.Instr))
+				if len(a) > 0 && (strings.Contains(a[len(a)-1], "GetEpochStartForBlock)") || a[len(a)-1] == "param#3" && ir.HasFact(ir.GuardFacts(s.Instr), "GetEpochStartForBlock)(", "#0 == param#3)")) {
+					c.OK("C05f/ValidatePairingForClient/policy-at-relay-epoch", c.P.InstrPos(s.Instr), a[len(a)-1])
+				} else if len(a) > 0 {
+					c.Fail("C05f/ValidatePairingForClient/policy-at-relay-epoch", c.P.InstrPos(s.Instr), "policy requested for "+trunc(a[len(a)-1], 80))
+				}
+			}
+		}
 		for _, n := range []string{pk + "Keeper.SetPairingRelayCache", pk + "Keeper.GetPairingRelayCache"} {
 			if f := c.Fn(n); f != nil {
 				ss := c.CallsByName(f, true, "x/pairing/types.NewPairingCacheKey")
